@@ -336,7 +336,7 @@ fn case(bytes: &[u8]) -> Outcome {
 }
 
 fn case_regress(doc: &serde_json::Value) -> Outcome {
-    let Some(g) = G::from_json(&doc["g"]) else { return Outcome::Broken("bad regress file".into()) };
+    let Some(g) = super::common::grammar_from_doc(doc) else { return Outcome::Broken("bad regress file".into()) };
     let text = print_minimal(&g);
     let Ok(b) = model::denote(&g, "bash") else { return Outcome::Broken("model".into()) };
     let mut cmds: CmdOut = BTreeMap::new();
